@@ -87,7 +87,7 @@ def install_lookups(reg: Registry):
                     ('none-iff-no-member-has-key', is_VNone(c.res) == z3.Not(z3.Exists([x], z3.And(o.cnt(L, x) > 0, match(x))))),
                     ('ref-or-none', z3.Or(is_VRef(c.res), is_VNone(c.res)))]
         return ens
-    reg.add(Contract(MM + ':Model.get_asset_by_id', {'self': Obj(MODEL), 'asset_id': T.int}, returns=Obj(ASSET, opt=True), pure=True,
+    reg.add(Contract(MM + ':Model.get_asset_by_id', {'self': Obj(MODEL), 'asset_id': T('int', opt=True)}, returns=Obj(ASSET, opt=True), pure=True,
                      ensures=first_with('assets', 'id', 'asset_id', ASSET, True), props=('C05', 'C07')))
     reg.add(Contract(MM + ':Model.get_asset_by_name', {'self': Obj(MODEL), 'asset_name': T.str}, returns=Obj(ASSET, opt=True), pure=True,
                      ensures=first_with('assets', 'name', 'asset_name', ASSET, False), props=('C05', 'C10')))
@@ -97,61 +97,43 @@ def install_lookups(reg: Registry):
     # ---- association_exists_between_assets (C06 "adding a link that already exists is rejected", C05)
     def links(h, s, l, r):
         """association s links (an asset with the id of) l on its left field to (an asset with the id of) r on its right field"""
-        x, y = z3.Const('x!lk', Val), z3.Const('y!lk', Val)
-        return z3.And(z3.Exists([x], z3.And(h.bag(h.f('lfield', s), x) > 0, h.f('id', v_a(x)) == h.f('id', l))),
-                      z3.Exists([y], z3.And(h.bag(h.f('rfield', s), y) > 0, h.f('id', v_a(y)) == h.f('id', r))))
+        x, y = A('x!lk'), A('y!lk')
+        return z3.And(z3.Exists([x], z3.And(h.cnt(h.f('lfield', s), x) > 0, h.f('id', x) == h.f('id', l)), patterns=[h.cnt(h.f('lfield', s), x)]),
+                      z3.Exists([y], z3.And(h.cnt(h.f('rfield', s), y) > 0, h.f('id', y) == h.f('id', r)), patterns=[h.cnt(h.f('rfield', s), y)]))
+    reg.links_by_id = links
 
-    def same_type(o, M, ty):
-        """the list of associations of class `ty` registered in the model (empty if none)"""
-        D = o.f('_type_to_association', M)
-        return D, VStr(ty)
-
-    def ae_requires(c):
-        o = c.old
-        D, k = same_type(o, c.self, c.association_type)
-        s = A('s!ar')
-        v = z3.Const('v!ar', Val)
-        L = v_a(o.val(D, k))
-        return [('bucket-old', z3.Implies(o.has(D, k), z3.And(L >= 0, L < o.alloc,
-                                                              FA([s], z3.Implies(o.cnt(L, s) > 0, z3.And(s >= 0, s < o.alloc, o.f('lfield', s) < o.alloc, o.f('rfield', s) < o.alloc,
-                                                                                                          o.f('lfield', s) >= 0, o.f('rfield', s) >= 0)), [o.cnt(L, s)])))),
-                ('bucket-typed', z3.Implies(o.has(D, k), z3.And(is_VRef(o.val(D, k)), o.cls(L) == CLS_LIST,
-                                                                FA([v], z3.Implies(o.bag(L, v) > 0, is_VRef(v)), [o.bag(L, v)]),
-                                                                FA([s, v], z3.Implies(z3.And(o.cnt(L, s) > 0, o.bag(o.f('lfield', s), v) > 0), is_VRef(v)),
-                                                                   [o.bag(o.f('lfield', s), v)]),
-                                                                FA([s, v], z3.Implies(z3.And(o.cnt(L, s) > 0, o.bag(o.f('rfield', s), v) > 0), is_VRef(v)),
-                                                                   [o.bag(o.f('rfield', s), v)]))))]
+    def exists_link(o, M, ty, l, r):
+        s = A('s!el')
+        return z3.Exists([s], z3.And(o.cnt(o.f('associations', M), s) > 0, o.f('clsname', s) == ty, links(o, s, l, r)),
+                         patterns=[o.cnt(o.f('associations', M), s)])
+    reg.exists_link = exists_link
 
     def ae_inv(c: LCtx):
-        o, h = c.old, c.h
+        o, h, M = c.old, c.h, c.self
         s = A('s!ai')
         l_ = A('l!ai')
+        D, k = o.f('_type_to_association', M), VStr(c.association_type)
         return [('no-match-so-far', FA([s], z3.Implies(z3.Select(c.done, VRef(s)) > 0, z3.Not(links(o, s, c.left_asset, c.right_asset))),
                                        [z3.Select(c.done, VRef(s))])),
                 ('old', z3.And(*[FA([l_], z3.Implies(z3.And(l_ >= 0, l_ < o.alloc), z3.Select(h.arr[n], l_) == z3.Select(o.arr[n], l_)), [z3.Select(h.arr[n], l_)])
                                  for n in h.arr if not z3.eq(h.arr[n], o.arr[n])], z3.BoolVal(True))),
-                ('bucket', z3.Or(c.it >= o.alloc, z3.And(o.has(*same_type(o, c.self, c.association_type)), c.it == v_a(o.val(*same_type(o, c.self, c.association_type)))))),
-                ('bucket-elements', FA([s], z3.Implies(c.hl.cnt(c.it, s) > 0, z3.And(o.has(*same_type(o, c.self, c.association_type)),
-                                                                                      o.cnt(v_a(o.val(*same_type(o, c.self, c.association_type))), s) > 0)),
-                                       [c.hl.cnt(c.it, s)])),
-                ('fresh-bucket-empty', z3.Implies(c.it >= o.alloc, z3.And(z3.Not(o.has(*same_type(o, c.self, c.association_type))), c.hl.len(c.it) == 0)))]
+                # the iterated list is the bucket of that class name, or the fresh empty default
+                ('bucket', z3.If(o.has(D, k), c.it == v_a(o.val(D, k)), z3.And(c.it >= o.alloc, c.hl.len(c.it) == 0)))]
 
     def ae_ensures(c):
-        o = c.old
-        D, k = same_type(o, c.self, c.association_type)
-        s = A('s!ae')
-        L = v_a(o.val(D, k))
-        return [('def', c.res == z3.And(o.has(D, k), z3.Exists([s], z3.And(o.cnt(L, s) > 0, links(o, s, c.left_asset, c.right_asset)))))]
+        o, h = c.old, c.h
+        l_ = A('l!ae')
+        return [('def', c.res == exists_link(c.old, c.self, c.association_type, c.left_asset, c.right_asset))] + [
+            ('pure.' + n, FA([l_], z3.Implies(z3.And(l_ >= 0, l_ < o.alloc), z3.Select(h.arr[n], l_) == z3.Select(o.arr[n], l_)), [z3.Select(h.arr[n], l_)]))
+            for n in h.arr if not z3.eq(h.arr[n], o.arr[n])]
 
-    import os
-    if os.environ.get('PYVC_WIP'):      # work in progress (14/16): not registered until complete
-      reg.add(Contract(MM + ':Model.association_exists_between_assets',
-                       {'self': Obj(MODEL), 'association_type': T.str, 'left_asset': Obj(ASSET), 'right_asset': Obj(ASSET)}, returns=T.bool,
-                       requires=ae_requires, ensures=ae_ensures, modifies=LIST_ARRAYS + ('cls', 'own_obj'), allocates=True,
-                       loops={0: LoopSpec(ae_inv, iter_src='associations')}, props=('C06', 'C05'),
-                       note='EVERY association of that class is inspected (not only the first)'))
-    else:
-        pass
+    from .model_spec import wf_model
+    reg.add(Contract(MM + ':Model.association_exists_between_assets',
+                     {'self': Obj(MODEL), 'association_type': T.str, 'left_asset': Obj(ASSET), 'right_asset': Obj(ASSET)}, returns=T.bool,
+                     requires=lambda c: [('wf.' + nm, f) for nm, f in wf_model(c.old, c.self, ('M0', 'M3', 'M4'))], ensures=ae_ensures,
+                     modifies=LIST_ARRAYS + ('cls', 'own_obj'), allocates=True,
+                     loops={0: LoopSpec(ae_inv, iter_src='associations')}, props=('C06', 'C05'),
+                     note='EVERY association of that class is inspected (not only the first); links are compared by asset id, as the code does'))
 
 
 _install_m0 = install
